@@ -704,12 +704,24 @@ def _check_history(case):
     execs = 0
     mol = None
     got = None
+    merge = case.get('grow') == 'add_molecule'
     for stage in range(1, len(frags) + 1):
-        mol = _build(frags[stage - 1:stage], True, mol, first_index=stage - 1)
+        if merge and mol is not None:
+            # the molecule grows by MERGING another molecule into it (Molecule.add_molecule), as the taggers do when two
+            # molecules turn out to be one; whatever was answered before the merge must not survive it
+            from singlecellmultiomics.molecule import Molecule
+            from singlecellmultiomics.fragment import Fragment
+            other = Molecule(Fragment(G.build_reads(REF, frags[stage - 1], f'f{stage - 1}', TAGS, single_as_pair=True),
+                                      assignment_radius=1000, umi_hamming_distance=0))
+            mol.add_molecule(other)
+            if len(mol) != stage:
+                raise HarnessError('molecule size differs from the number of fragments merged')
+        else:
+            mol = _build(frags[stage - 1:stage], True, mol, first_index=stage - 1)
         prefix = frags[:stage]
         for optname in order:
             kw, direct = OPT[optname]
-            site = f'get_consensus[{optname}]:pos:after-every-add'
+            site = f'get_consensus[{optname}]:pos:' + ('after-every-merge' if merge else 'after-every-add')
             try:
                 got, table = _query(mol, kw)
                 execs += 1
@@ -923,6 +935,10 @@ def run_shard(shard, tier, acc):
                 case = {'level': 'pos', 'word': list(word), 'history': 'every-option-set-after-every-add'}
                 viols, info = check_case(case)
                 _report(acc, case, viols, info)
+                if wi == 0 and len(word) > 1:
+                    case = dict(case, grow='add_molecule')
+                    viols, info = check_case(case)
+                    _report(acc, case, viols, info)
     elif shard[0] == 'wopt':
         _, level, part = shard
         alpha = window_alphabet(1 if level == 1 else 3, tier)
